@@ -202,6 +202,17 @@ class ProgramModel(DSOLModel):
         r.after_handler(self, "L%s" % tag)
 
 
+class Entity:
+    """A handler object that nobody but the event refers to (the usual
+    `schedule_event_rel(d, Customer(...), "arrive")` idiom)."""
+
+    def __init__(self, model):
+        self.model = model
+
+    def h(self, eid):
+        self.model.h(eid=eid)
+
+
 class SubEventA(SimEvent):
     """User subclasses of SimEvent (ids must still follow creation order across
     all event classes)."""
@@ -302,6 +313,9 @@ class Runner:
                 return int(x)
             return float(x)
         if c == "int":
+            if isinstance(x, float) and not math.isnan(x) and not x.is_integer() \
+                    and abs(x) < 2 ** 52:
+                return x          # a fractional value on an int clock is passed as given
             return int(x) if not (isinstance(x, float) and math.isnan(x)) else x
         return Duration(float(x), self.unit)
 
@@ -310,7 +324,8 @@ class Runner:
         if self.prog["clock"] == "duration":
             return float(t) * self.factor
         if self.prog["clock"] == "int":
-            return int(t)
+            # (a fractional bound of a bounded run leaves a fractional clock)
+            return int(t) if float(t).is_integer() else float(t)
         return float(t)
 
     def make_replication(self, rep=None):
@@ -392,17 +407,18 @@ class Runner:
                     else:
                         t, prio = self.tv(a[1]), a[3]
                     ev = sim.schedule_event(CustomEvent(t, model, child, prio))
-                elif kind == "now":
-                    ev = sim.schedule_event_now(model, "h", a[2], eid=a[1])
-                    child = a[1]
-                elif kind == "rel":
-                    ev = sim.schedule_event_rel(self.tv(a[1]), model, "h",
-                                                a[3], eid=a[2])
-                    child = a[2]
                 else:
-                    ev = sim.schedule_event_abs(self.tv(a[1]), model, "h",
-                                                a[3], eid=a[2])
-                    child = a[2]
+                    # every fourth event of such programs targets a temporary object
+                    # that only the event itself keeps alive
+                    tgt = Entity(model) if self.prog.get("temp_targets") and child % 4 == 1 \
+                        else model
+                    if kind == "now":
+                        ev = sim.schedule_event_now(tgt, "h", a[2], eid=a[1])
+                    elif kind == "rel":
+                        ev = sim.schedule_event_rel(self.tv(a[1]), tgt, "h", a[3], eid=a[2])
+                    else:
+                        ev = sim.schedule_event_abs(self.tv(a[1]), tgt, "h", a[3], eid=a[2])
+                    del tgt
                 model.handles[child] = ev
                 out = "ok"
             except Exception as e:
